@@ -580,6 +580,51 @@ time_t __wrap_time(time_t *t)
   return now;
 }
 
+// Every other clock and the C library's random numbers go through the simulated clock too: the value is a function of the
+// run (replayable) and moves on with every read, so that code which starts to depend on it stops being repeatable from
+// equal states - which is what the repeatability oracles look for.
+static uint64_t sim_clock_read_us()
+{
+  W.clock_reads++;
+  sim_count(C_TIME_CALLS);
+  uint64_t us = (uint64_t)W.clock0 * 1000000ull + W.hdr->sim_usec + W.clock_reads * 7;
+  sim_event(SEAM_TIME, us, 1);
+  return us;
+}
+
+int __wrap_gettimeofday(struct timeval *tv, void *tz)
+{
+  (void)tz;
+  uint64_t us = sim_clock_read_us();
+  if (tv != NULL) { tv->tv_sec = (time_t)(us / 1000000); tv->tv_usec = (suseconds_t)(us % 1000000); }
+  return 0;
+}
+
+int __real_clock_gettime(clockid_t id, struct timespec *ts);
+
+int __wrap_clock_gettime(clockid_t id, struct timespec *ts)
+{
+  if (!W.in_child) { return __real_clock_gettime(id, ts); }
+  uint64_t us = sim_clock_read_us();
+  if (ts != NULL) { ts->tv_sec = (time_t)(us / 1000000); ts->tv_nsec = (long)(us % 1000000) * 1000; }
+  return 0;
+}
+
+clock_t __wrap_clock(void)
+{
+  return (clock_t)(sim_clock_read_us() & 0x7fffffff);
+}
+
+int __wrap_rand(void)
+{
+  return (int)((sim_clock_read_us() * 6364136223846793005ull + 1442695040888963407ull) >> 33) & 0x7fffffff;
+}
+
+long __wrap_random(void)
+{
+  return (long)__wrap_rand();
+}
+
 int __wrap_usleep(useconds_t us)
 {
   W.hdr->sim_usec += us;
